@@ -140,8 +140,8 @@ theorem newDT_map_ok {kf vf : Field} (hk : NB kf) (hv : NB vf) (nl : Bool) (md :
   exact ⟨_, by simp only [Fields.ofList, newDT, hkb, hvb, bind, Except.bind, pure, Except.pure]; rfl⟩
 
 theorem newDT_union_ok {l : List (Int × Field)} (h : ∀ path, ∃ bl, newUnionFields path (UFields.ofList l) 0 = .ok bl)
-    (m : UnionMode) (nl : Bool) (md : Metadata) (path : String) :
-    ∃ b, newDT path (.union (UFields.ofList l) m) nl md = .ok b := by
+    (nl : Bool) (md : Metadata) (path : String) :
+    ∃ b, newDT path (.union (UFields.ofList l) .dense) nl md = .ok b := by
   obtain ⟨bl, hbl⟩ := h path
   exact ⟨_, by simp only [newDT, hbl, bind, Except.bind, pure, Except.pure]; rfl⟩
 
@@ -240,7 +240,7 @@ theorem to_field_NB (o : Options) (h0 : o.overwrites = []) :
     rw [C07.WF] at hw; rw [TN] at ht
     rcases to_field_union_inv h0 h with ⟨_, _, rfl⟩ | ⟨fields, hfs, rfl, _⟩
     · exact NB_default_dictionary_field o n nl
-    · exact NB_mk (newDT_union_ok (to_fieldsV_NB o h0 vs 0 fields hw ht hfs) .dense nl [])
+    · exact NB_mk (newDT_union_ok (to_fieldsV_NB o h0 vs 0 fields hw ht hfs) nl [])
 theorem to_fieldsT_NB (o : Options) (h0 : o.overwrites = []) :
     ∀ (ts : Tracers) (k : Nat) (l : List Field), C07.TsWF o ts → TNT k ts → ts.to_fields o = .ok l → ∀ f ∈ l, NB f
   | .nil, k, l, _, _, h => by
